@@ -107,7 +107,108 @@ Qed.
 
 (* ---------- simplifying constructors ---------- *)
 
-Lemma cat'_spec a b s : lang (cat' a b) s <-> lang (Cat a b) s.
+Lemma alts_spec r s : lang r s <-> exists x, In x (alts r) /\ lang x s.
+Proof.
+  induction r; simpl; try (split; [intros H; eexists; split; [left; reflexivity|exact H]|
+                                   intros (x & [<-|[]] & H); exact H]).
+  - split; [tauto|]. intros (x & [] & _).
+  - rewrite IHr1, IHr2. split.
+    + intros [(x & Hi & H)|(x & Hi & H)]; exists x; (split; [apply in_or_app; tauto|exact H]).
+    + intros (x & Hi & H). apply in_app_or in Hi as [Hi|Hi]; [left|right]; exists x; tauto.
+Qed.
+
+Lemma build_alt_spec l s : lang (build_alt l) s <-> exists x, In x l /\ lang x s.
+Proof.
+  induction l as [|x l IH]; simpl.
+  - split; [tauto|]. intros (x & [] & _).
+  - destruct l as [|y l].
+    + split; [intros H; exists x; tauto|]. intros (z & [<-|[]] & H). exact H.
+    + change (lang (Alt x (build_alt (y :: l))) s) with (lang x s \/ lang (build_alt (y :: l)) s).
+      rewrite IH. split.
+      * intros [H|(z & Hi & H)]; [exists x; tauto|exists z; tauto].
+      * intros (z & [<-|Hi] & H); [tauto|right; exists z; tauto].
+Qed.
+
+Lemma cname_eqb_eq a b : cname_eqb a b = true -> a = b.
+Proof. destruct a, b; simpl; congruence. Qed.
+
+Lemma citem_eqb_eq a b : citem_eqb a b = true -> a = b.
+Proof.
+  destruct a, b; simpl; try discriminate.
+  - intros H. apply andb_prop in H as [H1 H2]. apply N.eqb_eq in H1, H2. congruence.
+  - intros H. apply cname_eqb_eq in H. congruence.
+Qed.
+
+Lemma list_eqb_eq {A} (f : A -> A -> bool) (Hf : forall x y, f x y = true -> x = y) l1 l2 :
+  list_eqb f l1 l2 = true -> l1 = l2.
+Proof.
+  revert l2; induction l1 as [|x r IH]; intros [|y r2]; simpl; try discriminate; [reflexivity|].
+  intros H. apply andb_prop in H as [H1 H2]. f_equal; [now apply Hf|now apply IH].
+Qed.
+
+Lemma opt_nat_eqb_eq a b : opt_nat_eqb a b = true -> a = b.
+Proof. destruct a, b; simpl; try discriminate; [|reflexivity]. intros H. apply Nat.eqb_eq in H. congruence. Qed.
+
+Lemma re_eqb_eq a : forall b, re_eqb a b = true -> a = b.
+Proof.
+  induction a; intros b'; destruct b'; simpl; try discriminate; try reflexivity.
+  - intros H. apply N.eqb_eq in H. congruence.
+  - intros H. apply andb_prop in H as [H1 H2]. apply eqb_prop in H1.
+    apply (list_eqb_eq _ citem_eqb_eq) in H2. congruence.
+  - intros H. apply andb_prop in H as [H1 H2]. f_equal; auto.
+  - intros H. apply andb_prop in H as [H1 H2]. f_equal; auto.
+  - intros H. f_equal; auto.
+  - intros H. f_equal; auto.
+  - intros H. f_equal; auto.
+  - intros H. apply andb_prop in H as [H12 H3]. apply andb_prop in H12 as [H1 H2].
+    apply Nat.eqb_eq in H1. apply opt_nat_eqb_eq in H2. f_equal; auto.
+Qed.
+
+Lemma ex_in_cons (y : re) l s :
+  (exists x, In x (y :: l) /\ lang x s) <-> lang y s \/ exists x, In x l /\ lang x s.
+Proof.
+  split.
+  - intros (x & [<-|Hi] & H); [tauto|right; exists x; tauto].
+  - intros [H|(x & Hi & H)]; [exists y; simpl; tauto|exists x; simpl; tauto].
+Qed.
+
+Lemma dedup_spec seen l s :
+  (exists x, In x (dedup seen l) /\ lang x s) \/ (exists x, In x seen /\ lang x s) <->
+  (exists x, In x l /\ lang x s) \/ (exists x, In x seen /\ lang x s).
+Proof.
+  revert seen; induction l as [|y r IH]; intros seen.
+  - simpl. tauto.
+  - cbn [dedup]. destruct (existsb (re_eqb y) seen) eqn:E.
+    + rewrite IH, (ex_in_cons y r).
+      assert (Hy : lang y s -> exists x, In x seen /\ lang x s).
+      { intros H. apply existsb_exists in E as (z & Hz & Ezy). apply re_eqb_eq in Ezy. subst z. exists y. tauto. }
+      tauto.
+    + specialize (IH (y :: seen)). rewrite (ex_in_cons y seen) in IH.
+      rewrite (ex_in_cons y (dedup (y :: seen) r)), (ex_in_cons y r). tauto.
+Qed.
+
+Lemma alt'_spec a b s : lang (alt' a b) s <-> lang a s \/ lang b s.
+Proof.
+  unfold alt'. rewrite build_alt_spec, (alts_spec a), (alts_spec b).
+  pose proof (dedup_spec [] (alts a ++ alts b) s) as D. simpl in D.
+  assert (N : ~ (exists x : re, False /\ lang x s)) by (intros (x & [] & _)).
+  split.
+  - intros H. destruct D as [D1 _]. destruct (D1 (or_introl H)) as [(x & Hi & Hl)|H']; [|tauto].
+    apply in_app_or in Hi as [Hi|Hi]; [left|right]; exists x; tauto.
+  - intros H. destruct D as [_ D2].
+    assert (H' : exists x, In x (alts a ++ alts b) /\ lang x s).
+    { destruct H as [(x & Hi & Hl)|(x & Hi & Hl)]; exists x; (split; [apply in_or_app; tauto|exact Hl]). }
+    destruct (D2 (or_introl H')) as [H''|H'']; tauto.
+Qed.
+
+Lemma dedup_nil_spec l s :
+  (exists x, In x (dedup [] l) /\ lang x s) <-> (exists x, In x l /\ lang x s).
+Proof.
+  pose proof (dedup_spec [] l s) as D. simpl in D.
+  assert (N : ~ (exists x : re, False /\ lang x s)) by (intros (x & [] & _)). tauto.
+Qed.
+
+Lemma cat1_spec a b s : lang (cat1 a b) s <-> lang (Cat a b) s.
 Proof.
   assert (Heps_l : forall x, lang x s <-> lang (Cat Eps x) s).
   { intros x; simpl; split.
@@ -125,11 +226,14 @@ Proof.
     destruct b; try apply Hemp_r; try apply Heps_r; reflexivity.
 Qed.
 
-Lemma alt'_spec a b s : lang (alt' a b) s <-> lang a s \/ lang b s.
+Lemma cat'_spec a b s : lang (cat' a b) s <-> lang (Cat a b) s.
 Proof.
-  assert (Hd : forall x y, lang (if re_eq_dec x y then x else Alt x y) s <-> lang x s \/ lang y s).
-  { intros x y. destruct (re_eq_dec x y) as [->|]; simpl; tauto. }
-  destruct a; try (simpl; tauto); destruct b; try (simpl; tauto); apply Hd.
+  unfold cat'. rewrite build_alt_spec, dedup_nil_spec. split.
+  - intros (y & Hi & H). apply in_map_iff in Hi as (x & <- & Hx). apply cat1_spec in H.
+    destruct H as (p & q & -> & Hp & Hq). exists p, q. split; [reflexivity|]. split; [|exact Hq].
+    apply alts_spec. exists x. tauto.
+  - intros (p & q & -> & Hp & Hq). apply alts_spec in Hp as (x & Hx & Hp).
+    exists (cat1 x b). split; [apply in_map_iff; exists x; tauto|]. apply cat1_spec. exists p, q. tauto.
 Qed.
 
 (* ---------- derivative ---------- *)
